@@ -330,6 +330,46 @@ example :
       · simp [List.find?, h3, e2, h1] at hx
       · simp [List.find?, h3, e2, h1] at hx
 
+/-! ### ownership cycles
+
+  Nothing above assumes that ownership is acyclic: `owns` is an arbitrary relation (`Op.new … owned` and `Op.own a owned`
+  take any identities, the object itself included), so `C06_no_double`, `C06_exactly_once(_windows)`,
+  `C06_teardown_classification`, `C06_collect_respects_marks`, `C06_del_finalises_now` and `C06_order_irrelevant` hold for
+  rings of boxes and self-owning boxes as they stand.  What makes a cascade around a ring stop — in the C code and in the
+  proof (`finalise_spec`: every nested destructor call is preceded by the removal of one tracked object, so fuel
+  `> #tracked` suffices and no object is met twice) — is that an object leaves the registry, or has its pending slot
+  cleared, *before* its destructor runs.  The examples instantiate the hypotheses on rings; the last theorem shows what
+  happens when the slot is cleared too late. -/
+
+/-- a ring of two boxes 1 ↔ 2 reclaimed by one collection, either member first: each finalised exactly once, and the
+    history meets every hypothesis of `C06_exactly_once` -/
+example :
+    let ops : List Op := [.new 1 .std [] [1] [], .new 2 .std [1] [1, 2] [], .own 1 [2]]
+    WellFormed ops ∧ (∀ op ∈ ops, op ≠ Op.stop) ∧ (ghost ops).rawLive = [] ∧ (∀ e ∈ (final ops).reg, e.root = false) ∧
+      (final ops).running = true ∧
+      (step Cfg.current (final ops) (Op.collect [] [1, 2])).log = [.fin 1, .fin 2, .free 2, .free 1] ∧
+      (step Cfg.current (final ops) (Op.collect [] [2, 1])).log = [.fin 2, .fin 1, .free 1, .free 2] ∧
+      (final (ops ++ [Op.teardown [1, 2]])).log = [.fin 1, .fin 2, .free 2, .free 1] := by
+  decide
+
+/-- a box that owns itself, left to teardown; a ring of three whose member 2 the program deletes explicitly (the cascade
+    goes once round the ring and stops at 2, already unregistered) -/
+example :
+    (final [.new 1 .std [] [1] [], .own 1 [1], .teardown []]).log = [.fin 1, .free 1] ∧
+    (let ops : List Op := [.new 1 .std [] [1] [], .new 2 .std [1] [1, 2] [], .new 3 .std [2] [1, 2, 3] [], .own 1 [3]]
+     WellFormed ops ∧ 2 ∈ (final ops).regAddrs ∧
+       (final (ops ++ [Op.del 2 .std])).log = [.fin 2, .fin 1, .fin 3, .free 3, .free 1, .free 2] ∧
+       (final (ops ++ [Op.del 2 .std])).reg = []) := by
+  decide
+
+/-- **a pending slot cleared only after the finalisation** (or not at all: for the cascade it is the same) breaks exactly
+    the cyclic case: sweeping the ring 1 ↔ 2, the `del` that comes back to 1 still finds it on the pending list and
+    finalises it a second time, while its first destructor is still running -/
+theorem C06_lateclear_ring_refuted :
+    let ops : List Op := [.new 1 .std [] [1] [], .new 2 .std [1] [1, 2] [], .own 1 [2], .collect [] [1, 2]]
+    (run ⟨true, false⟩ St.init ops).log = [.fin 1, .fin 2, .fin 1, .free 1, .free 2, .free 1] := by
+  decide
+
 /-! ### known finding F23 and the pre-fix code -/
 
 /-- the full statement of the property: as `C06_exactly_once_windows` but *without* excluding allocations made while the
